@@ -2,12 +2,16 @@ package compilex
 
 import (
 	"fmt"
+	"os"
 	"runtime"
 	"strings"
+	"sync"
+	"time"
 
 	_ "github.com/apmckinlay/gsuneido/builtin"
 	"github.com/apmckinlay/gsuneido/compile"
 	"github.com/apmckinlay/gsuneido/core"
+	"verifharness/internal/rt"
 )
 
 // errText renders whatever the compiler / interpreter panicked with.
@@ -77,8 +81,58 @@ func compileConst(src string) (r realRes) {
 	return realRes{v: compile.Constant(src)}
 }
 
+// run watchdog: the interpreter cannot be interrupted, so a run of the code
+// under test that does not return is reported (with the program) and the
+// process exits with a failure the driver counts as a violation. The
+// reference interpreters / generators bound every program they accept, so a
+// real run that takes 10 s means the implementation loops where the model
+// terminated (e.g. known finding C29 break-out-of-try without its entry).
+var runWD struct {
+	mu      sync.Mutex
+	what    string
+	started time.Time
+	once    sync.Once
+	prop    string
+}
+
+func watchRuns() {
+	for {
+		time.Sleep(time.Second)
+		runWD.mu.Lock()
+		what, st, prop := runWD.what, runWD.started, runWD.prop
+		runWD.mu.Unlock()
+		if st.IsZero() || time.Since(st) < 10*time.Second {
+			continue
+		}
+		p := rt.ReplayOut("nonterminating_program.txt")
+		os.WriteFile(p, []byte(what), 0o644)
+		fmt.Printf("VERIF-FAIL property=%s sub=run-does-not-terminate replay=%s\n", prop, p)
+		fmt.Printf("the implementation did not finish within 10 s a program that the bounded reference run finished:\n%s\n", what)
+		os.Exit(1)
+	}
+}
+
+// curProp is the property whose test is running (for the watchdog's report).
+var curProp = "C??"
+
+// currentProgram is set by the checks before they run something.
+func currentProgram(prop, src string) {
+	runWD.once.Do(func() { go watchRuns() })
+	runWD.mu.Lock()
+	runWD.prop, runWD.what = prop, src
+	runWD.mu.Unlock()
+}
+
 // callFn calls a compiled function on a fresh thread, catching the panic.
 func callFn(fn core.Value, args ...core.Value) (r realRes) {
+	runWD.mu.Lock()
+	runWD.started = time.Now()
+	runWD.mu.Unlock()
+	defer func() {
+		runWD.mu.Lock()
+		runWD.started = time.Time{}
+		runWD.mu.Unlock()
+	}()
 	th := &core.Thread{}
 	defer func() {
 		if e := recover(); e != nil {
@@ -94,6 +148,7 @@ func callFn(fn core.Value, args ...core.Value) (r realRes) {
 
 // compileAndCall compiles src (a function) and calls it.
 func compileAndCall(src string, args ...core.Value) realRes {
+	currentProgram(curProp, src)
 	c := compileConst(src)
 	if c.failed() {
 		return c
